@@ -9,7 +9,7 @@ ID = 'C14'
 LEVEL = 'proof'
 B = BLOCK['C14']
 TIE = {'core.PreConverted / PostConverted / FixedSeatCount / Conditioned / ByConstituency (incl. preselector) / PreApportioned / RemovedApportionment / '
-       'ByParty / MultistageDistributor / UnusedVotesDistributor / AdjustedSeatCount / AllowOverhang / LevelOverhang / TieBreaking / PartyListEvaluator / '
+       'ByParty / MultistageDistributor / UnusedVotesDistributor / AdjustedSeatCount / AllowOverhang / LevelOverhang / LevelOverhangByConstituency / TieBreaking / PartyListEvaluator / '
        'VotingSystem (evaluate / calculate methods)': 'correspondence (extracted run_impl with the '
        'leaf evaluators, converters, quota functions and calculator objects answered by the real objects through an oracle table)',
        'inspect.signature of every evaluate() / core.accepts_seats / accepts_prev_gains': 'compared with Wrappers.sig_of / acc_seats / acc_prev on every node of every generated tree',
@@ -29,8 +29,7 @@ RULE = ('corpus (zero-seat constituencies, omitted seat counts, seat dictionary 
         'prev_gains and max_seats (flat and nested), seat count positionally or by keyword. Each case: implementation '
         'vs extracted run_impl (oracle leaves), implementation vs the by-hand composition on the same leaf objects, run_spec vs by-hand. '
         'non-trivial = tree depth >= 2 or prev_gains/max_seats supplied or a tie / zero-seat constituency occurred; distinct by case hash')
-PARTIAL = ['LevelOverhangByConstituency inside AdjustedSeatCount is a part answered by the real object (its calculate() is modelled in Model/OverhangByC.v for C15, '
-           'not inside the wrapper tree); ByConstituency with a preselector AND a distributor apportioner, non-simple vote subsetters: not embedded '
+PARTIAL = ['ByConstituency with a preselector AND a distributor apportioner, non-simple vote subsetters: not embedded '
            '(implementation vs by-hand composition only)',
            'util.add_dict_to_dict at one level, tie replacement, the unused-vote arithmetic and the levelling loop are one definition used by both semantics '
            '(tied by correspondence; the tie replacement characterised by separate theorems); VoteTotals / SubsettedVotes have a declarative spec-side '
